@@ -5,14 +5,77 @@ Models: Verif.Model.DS.{OrderedMap,BiMap,PersistentSet,IntervalST} (ports of com
 common/bimap, common/persistent, common/intervalst).  Specs: Verif.Spec.DS.
 Only statements and their final proofs live here; lemmas are in Verif.Proofs.DS.*.
 -/
-import Verif.Model.DS.OrderedMap
-import Verif.Spec.DS
+import Verif.Proofs.DS.OrderedMap
+import Verif.Proofs.DS.BiMap
 namespace Verif.Properties.C51
 open Verif.DS Verif.Model.DS
+
+/-! ## ordered map -/
+
+/-- **Refinement, every operation sequence.**  Whatever the initial receivers (each of the registers
+    either `orderedmap.New(..)` or the zero value `&OrderedMap{}`) and whatever the sequence of
+    operations (`Set Get Contains GetPair Delete Len Oldest Newest Pair.Next Pair.Prev Foreach
+    ForeachWithIndex ForeachWithError ForAllKeys ForAnyKey KeySetIsDisjointFrom KeySetIntersection
+    KeySetUnion SetAll Clear`, with arbitrary keys, values, predicates and register aliasing), the
+    code-shaped model (index map + linked list) produces exactly the observations — return values
+    and callback invocation sequences, hence lookups and iteration order — of the insertion-ordered
+    association list. -/
+theorem orderedmap_refines {K V : Type} [DecidableEq K] (zeroValue : Nat → Bool) (ops : List (OMOp K V)) :
+    (OrderedMap.impl K V).run ((OrderedMap.impl K V).init zeroValue) ops =
+      (Verif.Spec.DS.OM.impl K V).run ((Verif.Spec.DS.OM.impl K V).init zeroValue) ops :=
+  Verif.Proofs.DS.OM.model_sim.run_eq ops (Verif.Proofs.DS.OM.model_sim.init zeroValue)
+
+example : (OrderedMap.impl Nat Nat).run ((OrderedMap.impl Nat Nat).init (fun r => r == 0))
+    [.any 0 (fun _ => true), .set 0 3 7, .set 0 1 8, .set 0 3 9, .del 0 1, .set 0 1 5, .each 0, .any 0 (· < 2)] =
+    [.boolKeys false [], .val none, .val none, .val (some 7), .val (some 8), .val none,
+     .pairs [(3, 9), (1, 5)], .boolKeys true [3, 1]] := by decide
+
+/-- The spec's `ForAnyKey`/`ForAllKeys` results are the plain `any`/`all` over the keys in insertion
+    order (so: `false` / `true` on every empty map, zero value included). -/
+theorem orderedmap_spec_forAny_forAll {K V : Type} [DecidableEq K] (s : List (K × V)) (p : K → Bool) :
+    ((Verif.Spec.DS.OM.impl K V).forAnyKey s p).1 = (s.map Prod.fst).any p ∧
+    ((Verif.Spec.DS.OM.impl K V).forAllKeys s p).1 = (s.map Prod.fst).all p :=
+  ⟨Verif.Proofs.DS.OM.visitUntil_fst p _, Verif.Proofs.DS.OM.visitUntil_not_fst p _⟩
 
 /-- `ForAnyKey` on the zero value `&OrderedMap{}` is `false` and calls the predicate on no key
     (the fixed code; before `fix:` 2fef6c8 it returned `true`). -/
 theorem orderedmap_forAnyKey_zero {K V : Type} [DecidableEq K] (p : K → Bool) :
     OrderedMap.forAnyKey (OrderedMap.zero : OrderedMap.OM K V) p = (false, []) := rfl
+
+/-! ## bidirectional map -/
+
+/-- **Refinement, every operation sequence** from `NewBiMap()`: same observations as the finite
+    one-to-one relation. -/
+theorem bimap_refines {K V : Type} [DecidableEq K] [DecidableEq V] (ops : List (BMOp K V)) :
+    BiMap.run (BiMap.new : BiMap.BM K V) ops = Verif.Spec.DS.BM.run [] ops :=
+  Verif.Proofs.DS.BM.run_sim Verif.Proofs.DS.BM.R_new ops
+
+/-- **forward and backward stay mutually inverse** after every operation sequence. -/
+theorem bimap_inverse {K V : Type} [DecidableEq K] [DecidableEq V] (ops : List (BMOp K V)) (k : K) (v : V) :
+    BiMap.get (BiMap.after (BiMap.new : BiMap.BM K V) ops) k = some v ↔
+      BiMap.getInverse (BiMap.after BiMap.new ops) v = some k :=
+  Verif.Proofs.DS.BM.inverse_of_R (Verif.Proofs.DS.BM.after_sim Verif.Proofs.DS.BM.R_new ops) k v
+
+/-- **`Insert` evicts both stale pairs**: in any reachable state `Insert k v` succeeds, relates `k`
+    and `v` in both directions, removes the old value of `k` from the backward map and the old key
+    of `v` from the forward map, and leaves all pairs not mentioning `k` or `v` alone. -/
+theorem bimap_insert_evicts {K V : Type} [DecidableEq K] [DecidableEq V] (ops : List (BMOp K V)) (k : K) (v : V) :
+    let m := BiMap.after (BiMap.new : BiMap.BM K V) ops
+    ∃ m', BiMap.insert m k v = some m' ∧ BiMap.get m' k = some v ∧ BiMap.getInverse m' v = some k ∧
+      (∀ v0, BiMap.get m k = some v0 → v0 ≠ v → BiMap.getInverse m' v0 = none) ∧
+      (∀ k0, BiMap.getInverse m v = some k0 → k0 ≠ k → BiMap.get m' k0 = none) ∧
+      (∀ k' v', k' ≠ k → v' ≠ v → (BiMap.get m' k' = some v' ↔ BiMap.get m k' = some v')) :=
+  Verif.Proofs.DS.BM.insert_evicts_of_R (Verif.Proofs.DS.BM.after_sim Verif.Proofs.DS.BM.R_new ops) k v
+
+example : BiMap.run (BiMap.new : BiMap.BM Nat Nat) [.insert 1 2, .insert 1 3, .insert 4 3, .get 1, .getInverse 3, .getInverse 2, .size] =
+    [.done, .done, .done, .val none, .key (some 4), .key none, .nat 1] := by decide
+
+/-- The zero value `BiMap{}` (nil maps): every read sees the empty relation and `Insert` is a Go
+    panic that leaves the receiver unchanged — the zero value is outside the spec (like a nil map). -/
+theorem bimap_zero_value {K V : Type} [DecidableEq K] [DecidableEq V] (ops : List (BMOp K V)) :
+    BiMap.after (BiMap.BM.zero : BiMap.BM K V) ops = .zero ∧
+    ∀ k v, BiMap.insert (BiMap.BM.zero : BiMap.BM K V) k v = none ∧ BiMap.get (.zero : BiMap.BM K V) k = none ∧
+      BiMap.getInverse (.zero : BiMap.BM K V) v = none :=
+  ⟨Verif.Proofs.DS.BM.after_zero ops, fun _ _ => ⟨rfl, rfl, rfl⟩⟩
 
 end Verif.Properties.C51
